@@ -2,15 +2,15 @@
 
 package proxycore
 
-import "sync/atomic"
-
 // Hooks for the verification harness in /verif. Compiled only with `-tags verif`.
 
 // VerifSetLBIndex sets the round-robin counter so that the counter's wrap-around can be reached without 2^32 calls.
 func VerifSetLBIndex(lb LoadBalancer, n uint64) {
-	l := lb.(*roundRobinLoadBalancer)
-	atomic.StoreUint64(&l.index, n)
+	verifStoreCounter(&lb.(*roundRobinLoadBalancer).index, n)
 }
+
+// verifStoreCounter is indifferent to the counter's width (the harness calls it single-threaded).
+func verifStoreCounter[T uint32 | uint64](p *T, n uint64) { *p = T(n) }
 
 // VerifPending exposes the real pendingRequests bookkeeping with a chosen number of streams.
 type VerifPending struct{ p *pendingRequests }
